@@ -417,7 +417,7 @@ def _convert_ios_addr(address_ag_d: DAny) -> None:
 
     :result: Side effect `address_ag_d`.
     """
-    if address_ag_d["platform"] != "ios":
+    if address_ag_d["platform"] == "nxos":  # ios, asa: AddressAg line is subnet with mask
         return
     ipnet = address_ag_d["ipnet"]
     if not isinstance(ipnet, IPv4Network):
